@@ -794,3 +794,111 @@ Section Conv.
     - unfold isk in Hk. rewrite (Hq m Hm) in Hk. discriminate.
   Qed.
 End Conv.
+
+(* ------------------------------------------------------------------ *)
+(** ** from the announcement to quiescence *)
+
+
+(** the state right after an origin announces satisfies the flood invariant *)
+Theorem conv_start : forall cf K ops0 o ns0,
+  (forall n, limit_of cf n = 0 \/ N.of_nat K <= limit_of cf n) ->
+  let s0 := run cf (init K) ops0 in
+  get (st_nodes s0) o = Some ns0 ->
+  conv cf K o (ns_seq ns0 + 1) (route_keys (sort_by route_ltb (ns_locals ns0 ++ [presence o])))
+       (st_now s0) (st_links s0) (next cf s0 (Announce o)).
+Proof.
+  intros cf K ops0 o ns0 Hlim s0 G.
+  set (sq := ns_seq ns0 + 1). set (R := route_keys (sort_by route_ltb (ns_locals ns0 ++ [presence o]))).
+  assert (Hctr : ctr s0 o = ns_seq ns0) by (unfold ctr; rewrite G; auto).
+  destruct (next_announcement_is_fresh cf K ops0 o) as [F1 [F2 F3]]. fold s0 in F1, F2, F3. rewrite Hctr in F1, F2, F3. fold sq in F1, F2, F3.
+  assert (HK : num_nodes s0 = K) by apply reach_num_nodes.
+  unfold next. simpl. unfold announce. rewrite G. simpl.
+  set (ns' := {| ns_seq := ns_seq ns0 + 1; ns_entries := ns_entries ns0; ns_seen := ns_seen ns0; ns_locals := ns_locals ns0 |}).
+  set (adv := {| a_origin := o; a_seq := ns_seq ns0 + 1; a_routes := sort_by route_ltb (ns_locals ns0 ++ [presence o]); a_path := [o]; a_seenby := [o] |}).
+  set (out := map (fun p => {| m_from := o; m_to := p; m_adv := adv |}) (neighbours s0 o)).
+  set (s1 := {| st_nodes := set (st_nodes s0) o ns'; st_links := st_links s0; st_flight := st_flight s0 ++ out; st_now := st_now s0 |}).
+  change (conv cf K o sq R (st_now s0) (st_links s0) s1).
+  assert (Seen : forall x, seen_of s1 x = seen_of s0 x).
+  { intros x. unfold s1. erewrite seen_of_set by eauto. destruct (x =? o) eqn:E; auto.
+    apply N.eqb_eq in E. subst x. unfold seen_of. rewrite G. auto. }
+  assert (Ent : forall x, entries_of s1 x = entries_of s0 x).
+  { intros x. unfold s1. erewrite entries_of_set by eauto. destruct (x =? o) eqn:E; auto.
+    apply N.eqb_eq in E. subst x. unfold entries_of. rewrite G. auto. }
+  assert (NoSeen : forall x, ~ seenk o sq s1 x).
+  { intros x H. unfold seenk, has_seen in H. rewrite Seen in H. specialize (F1 x). unfold has_seen in F1. congruence. }
+  assert (OldNotKey : forall m, In m (st_flight s0) -> ~ isk o sq m).
+  { intros m Hm Hk. destruct (isk_origin o sq m Hk) as [A B]. specialize (F3 m Hm A). lia. }
+  assert (OutSpec : forall m, In m out <-> exists p, m = {| m_from := o; m_to := p; m_adv := adv |} /\ In p (neighbours s0 o)).
+  { intros m. unfold out. rewrite in_map_iff. split; intros [p [A B]]; exists p; auto. }
+  assert (EntBound : forall x e, In e (entries_of s0 x) -> e_origin e = o -> e_seq e < sq).
+  { intros x e He Ho. unfold entries_of in He. destruct (get (st_nodes s0) x) as [nsx|] eqn:Gx; [|destruct He].
+    eapply F2; eauto. }
+  constructor.
+  - exists (ops0 ++ [Announce o]). rewrite run_snoc. unfold next. simpl. unfold announce. fold s0. rewrite G. reflexivity.
+  - reflexivity.
+  - simpl. lia.
+  - intros m Hm Hk. simpl in Hm. apply in_app_or in Hm. destruct Hm as [Hm|Hm]; [exfalso; eapply OldNotKey; eauto|].
+    apply OutSpec in Hm. destruct Hm as [p [Em Hp]]. subst m. apply In_neighbours in Hp. destruct Hp as [Hl HpK].
+    unfold msg_ok. simpl. repeat split; auto.
+    + intros [E|[]]. subst p. pose proof (reach_links_irrefl cf K ops0 o) as Hi. fold s0 in Hi. congruence.
+    + intros x [E|[]]. auto.
+    + lia.
+  - intros x e Hx He Ho. rewrite Ent in He. specialize (EntBound x e He Ho). lia.
+  - intros m Hm Ho. simpl in Hm. apply in_app_or in Hm. destruct Hm as [Hm|Hm].
+    + specialize (F3 m Hm Ho). lia.
+    + apply OutSpec in Hm. destruct Hm as [p [Em _]]. subst m. simpl. unfold sq. lia.
+  - intros x e Hx He Ho Hq. rewrite Ent in He. specialize (EntBound x e He Ho). lia.
+  - intros x Hx HxK p Hl HpK. destruct Hx as [Hx|Hx]; [|exfalso; eapply NoSeen; eauto]. subst x.
+    right; right. exists {| m_from := o; m_to := p; m_adv := adv |}. repeat split.
+    + simpl. apply in_or_app. right. apply OutSpec. exists p. split; auto.
+      unfold neighbours. apply filter_In. split; auto. apply In_nodes_from. lia.
+    + unfold isk, is_key. simpl. fold sq. rewrite !N.eqb_refl. auto.
+  - intros x Hx Hs. exfalso. eapply NoSeen; eauto.
+Qed.
+
+(** C12 (completeness) / C14 (refresh), end to end.  Take any reachable state
+    (any history of connects with replays, disconnects, announcements,
+    expiries ...).  Let origin o announce; then let any schedule of quiet
+    steps run (deliveries in any order, duplicates, other agents'
+    announcements, local route changes, time passing) during which the
+    announcement's seen-cache entry is not expired, until no copy of the
+    announcement is in flight.  With hop limits that do not cut the mesh,
+    every agent connected to o has then processed the announcement and holds
+    every route it carried (o's presence and all of o's local routes) at the
+    announcement's sequence number, refreshed no earlier than the
+    announcement. *)
+Theorem announcement_reaches_everyone : forall cf K ops0 o ns0 ops,
+  (forall n, limit_of cf n = 0 \/ N.of_nat K <= limit_of cf n) ->
+  let s0 := run cf (init K) ops0 in
+  get (st_nodes s0) o = Some ns0 ->
+  let sq := ns_seq ns0 + 1 in
+  let s1 := next cf s0 (Announce o) in
+  quiet_run cf o sq s1 ops ->
+  let s := run cf s1 ops in
+  (forall m, In m (st_flight s) -> is_key o sq m = false) ->
+  forall n, connected K o (st_links s0) n -> n <> o ->
+    has_seen s n o sq = true /\
+    forall r, In r (ns_locals ns0 ++ [presence o]) ->
+      exists e, In e (entries_of s n) /\ e_kind e = r_kind r /\ e_id e = r_id r /\
+                e_origin e = o /\ e_seq e = sq /\ st_now s0 <= e_upd e.
+Proof.
+  intros cf K ops0 o ns0 ops Hlim s0 G sq s1 Hq s Hquiet n Hc Hn.
+  pose proof (conv_start cf K ops0 o ns0 Hlim G) as C1. fold s0 sq s1 in C1.
+  pose proof (conv_run cf K o sq _ _ _ Hlim ops s1 C1 Hq) as C. fold s in C.
+  destruct (flood_completes cf K o sq _ _ _ s C Hquiet n Hc) as [E|[Hs Hst]]; [contradiction|].
+  split; auto.
+  intros r Hr.
+  destruct (Hst (kind_code (r_kind r)) (r_id r)) as [e [He [A [B [D [E F]]]]]].
+  { unfold route_keys. apply in_map_iff. exists r. split; auto. apply In_sort_by. auto. }
+  exists e. repeat split; auto. apply kind_code_inj. auto.
+Qed.
+
+(** a schedule of quiet steps without Forget / Advance is a quiet run *)
+Lemma quiet_run_syntactic : forall cf o sq ops s,
+  Forall (quiet_op o) ops -> forallb (fun op => negb (expiry_op op)) ops = true ->
+  quiet_run cf o sq s ops.
+Proof.
+  induction ops as [|op t IH]; intros s Hq He; simpl; auto.
+  inversion Hq; subst. simpl in He. apply andb_true_iff in He as [E1 E2]. apply negb_true_iff in E1.
+  repeat split; auto. intros n Hn. apply step_keeps_seen; auto.
+Qed.
